@@ -6,11 +6,13 @@ import (
 
 	"verif/internal/c02"
 	"verif/internal/c03"
+	"verif/internal/c19"
 )
 
 func init() {
 	monitors["C02"] = c02.Run
 	monitors["C03"] = c03.Run
+	monitors["C19"] = c19.Run
 }
 
 // workerMain dispatches crash-isolated child workers (C13, C14, C15).
